@@ -355,6 +355,14 @@ def op_catalogue(op: dict, log: EventLog, viol: list, stats: Counter) -> None:
     from sim.runtime import to_onnx_program
 
     pid = op["pid"]
+    # history: constructs converted first in this interpreter (their own outcome is not judged here);
+    # what they leave behind (caches keyed by jaxpr / callable / primitive) must not make the judged one silent
+    for pre in op.get("pre", []):
+        try:
+            to_onnx_program(programs.materialize(pre))
+        except BaseException:  # noqa: BLE001
+            pass
+        stats["catalogue_history_elements"] += 1
     try:
         prog = programs.materialize(pid)
     except Exception as exc:
@@ -576,6 +584,11 @@ def main(tier: str) -> int:
         shards[i % n_shards].append({"op": "enum", "pid": pid, "eqn_cap": eqn_cap, "fn_cap": fn_cap, "seed": seed, "max_eqns": 10**9 if tier == "thorough" else 250, "all_modes": tier == "thorough"})
     for i, cid in enumerate(catalogue_ids()):
         shards[i % n_shards].append({"op": "catalogue", "pid": cid})
+    from sim.fixtures import _index as _fx_index
+
+    for i, seq in enumerate(_fx_index.INDEX.get("c16cat_seq", [])):
+        # own interpreter each: the history must be exactly the listed one
+        shards.append([{"op": "catalogue", "pid": f"fx::c16cat::{seq[-1]}", "pre": [f"fx::c16cat::{q}" for q in seq[:-1]]}])
     plans = [{"property": PROP, "hashseed": 0, "ops": ops} for ops in shards if ops]
     results = co.run_plans(plans, timeout=max(600.0, budget), deadline=t0 + budget)
     stats: Counter = Counter()
